@@ -149,6 +149,9 @@ func loadNotClaimed() map[string]bool {
 		if ln == "" || strings.HasPrefix(ln, "#") {
 			continue
 		}
+		if i := strings.Index(ln, "  # "); i >= 0 {
+			ln = strings.TrimSpace(ln[:i])
+		}
 		out[ln] = true
 	}
 	return out
